@@ -76,6 +76,60 @@ def d2(chk, prog):
     tb.done("regions are joined although the gap reaches the minimum (or kept apart below it), or a region is lost")
 
 
+def non_n_runs(seq):
+    out, start = [], None
+    for i, ch in enumerate(seq + "N"):
+        if ch != "N" and start is None:
+            start = i
+        elif ch == "N" and start is not None:
+            out.append((start, i))
+            start = None
+    return out
+
+
+def d2b(chk, prog):
+    """the scanner on literal FASTA texts: every sequence over {A, N} up to 6 bases x every line width; multi-record files"""
+    chk.clause("D2b", "get_regions reports exactly the maximal non-N runs of every record, whatever the line width (literal FASTA texts)")
+    fi = prog.fn(f"{ACC}.get_regions")
+    tb = Table(chk, "non-n-runs", "get_regions on literal FASTA texts (sequences over {A,N} of length 0..6 x line widths 1..4 and unbroken; two- and three-record files)", fi.loc(), fi.qn)
+    files = []
+    seqs = [""] + ["".join(p) for n in range(1, 7) for p in itertools.product("AN", repeat=n)]
+    for sq in seqs:
+        for w in (1, 2, 3, 4, 60):
+            if w != 60 and w >= max(len(sq), 1) and w != 1:
+                continue
+            files.append(([("chrQ", sq)], w))
+    for a, b in itertools.product(["AAA", "NAN", "ANN", "NNA", "AANAA", "", "NN"], repeat=2):
+        files.append(([("chr1 description text", a), ("chr2", b)], 2))
+    files.append(([("s1", "AAAA"), ("s2", "NNAANN"), ("s3", "ANANA")], 3))
+    bad, undecided = [], []
+    for recs, w in files:
+        W.reset()
+        lines = []
+        for name, sq in recs:
+            lines.append(f">{name}\n")
+            lines += [sq[i:i + w] + "\n" for i in range(0, len(sq), w)]
+        model = Model()
+        model.builtins["open"] = lambda fname, *a, lines=lines, **k: list(lines)
+        it = Interp(prog, model)
+        try:
+            out = list(it.run(fi.qn, ["genome.fa"]))
+        except Undecided as u:
+            undecided.append(f"{recs} width {w}: {u}")
+            continue
+        except Raised as r:
+            bad.append(dict(records=recs, line_width=w, raised=str(r)[:100]))
+            continue
+        want = [(name.split()[0], a, b) for name, sq in recs for a, b in non_n_runs(sq)]
+        got = [tuple(x) for x in out]
+        if got != want:
+            bad.append(dict(records=recs, line_width=w, got=got, want=want))
+    if undecided:
+        raise AnalysisError(f"C13-D2b: {len(undecided)} texts undecided, e.g. {undecided[0][:300]}")
+    tb.cell(not bad, dict(texts=len(files), counterexamples=bad[:4], n_counterexamples=len(bad)))
+    tb.done("get_regions does not report exactly the maximal runs of non-N characters of each record")
+
+
 def d3(chk, prog):
     chk.clause("D3", "do_access: scan -> contig filter iff asked -> subtract each exclude in order -> join(min_gap_size)")
     fi = prog.fn(f"{ACC}.do_access")
@@ -164,6 +218,7 @@ def run(chk):
     chk.clause("D1", "exclude files may overlap or nest: subtract()'s precondition is established (C06-D1 rule)")
     C06.d1(chk, prog)
     d2(chk, prog)
+    d2b(chk, prog)
     d3(chk, prog)
     d4(chk, prog)
     C07.d6(chk, prog)            # exclusion is per sequence: chromosome pairing of by_shared_chroms (shared with C07-D6)
@@ -171,6 +226,19 @@ def run(chk):
 
 _A = "cnvlib/access.py"
 MUTANTS = [
+    dict(name="seeded C13c: mixed line re-anchors an open run at the line start", file=_A, old="""                        if run_start is not None:
+                            yield log_this(chrom, run_start, cursor + n_indices[0])
+                        elif n_indices[0] != 0:
+                            yield log_this(chrom, cursor, cursor + n_indices[0])
+""", new="""                        if n_indices[0] != 0:
+                            if run_start is None:
+                                run_start = cursor
+                            yield log_this(chrom, run_start, cursor + n_indices[0])
+"""),
+    dict(name="scanner: intermediate block end off by one", file=_A, old="                            ok_ends = n_indices[1:][gap_mask] + cursor\n", new="                            ok_ends = n_indices[1:][gap_mask] + cursor + 1\n"),
+    dict(name="scanner: trailing run forgotten at a new record", file=_A, old="""                if run_start is not None:
+                    yield log_this(chrom, run_start, cursor)
+                # Start new chromosome""", new="""                # Start new chromosome"""),
     dict(name="join: gap <= minimum", file=_A, old="            if gap < min_gap_size:", new="            if gap <= min_gap_size:"),
     dict(name="join: final region not emitted", file=_A, old="                prev_start, prev_end = start, end\n        yield (chrom, prev_start, prev_end)", new="                prev_start, prev_end = start, end"),
     dict(name="join: joined region keeps the old end", file=_A, old="                prev_end = end\n            else:", new="                pass\n            else:"),
